@@ -99,12 +99,17 @@ def mk_fpnum(H, d):
     """operand descriptor -> FPNum:  ['hp'|'sp'|'dp', pattern]  |  ['f', float.hex()]  |  ['semp', s, e, m, p]"""
     if d[0] == 'f': return H.FPNum(float.fromhex(d[1]))
     if d[0] == 'semp': return H.FPNum(d[1], d[2], d[3], d[4])
+    if d[0] == 'expr':                 # ['expr', 'add'|'sub'|'mul', d1, d2]: the RESULT of an earlier operation used as an operand (operation histories)
+        return getattr(mk_fpnum(H, d[2]), d[1])(mk_fpnum(H, d[3]))
     return H.FPNum(d[1], d[0])
 
 
 def desc_x(d):
     """oracle value of an operand descriptor"""
     if d[0] == 'f': return xfloat(float.fromhex(d[1]))
+    if d[0] == 'expr':
+        xa, xb = desc_x(d[2]), desc_x(d[3])
+        return {'add': lambda: _xadd(xa, xb), 'sub': lambda: _xadd(xa, _xneg(xb)), 'mul': lambda: _xmul(xa, xb)}[d[1]]()
     if d[0] == 'semp':
         fr = Fraction(d[3], d[4]) * Fraction(2) ** d[2]
         return [1 if d[1] < 0 else 0, fr.numerator, fr.denominator]
